@@ -38,7 +38,7 @@ echo "suite_with_change: $suite" | tee -a "$LOG"
 # (3) demonstration with and without the change
 demo_build() { g++ -std=c++17 -O2 -march=native -fopenmp -I"$W/include" -I"$W/c-interface" $DEMO_EXTRA "$D/demo.cpp" $DEMO_LINK -o "$W/_demo" >> "$LOG" 2>&1; }
 DEMO_EXTRA=""; DEMO_LINK=""
-grep -q 'cpgm.h' "$D/demo.cpp" 2>/dev/null && DEMO_LINK="$W/c-interface/cpgm.cpp"
+grep -q 'cpgm.h' "$D/demo.cpp" 2>/dev/null && ! grep -q 'cpgm.cpp"' "$D/demo.cpp" && DEMO_LINK="$W/c-interface/cpgm.cpp"
 grep -q 'pthread\|<thread>' "$D/demo.cpp" 2>/dev/null && DEMO_LINK="$DEMO_LINK -lpthread"
 grep -q 'fsanitize=thread' "$D/agent_README.md" 2>/dev/null && DEMO_EXTRA="-fsanitize=thread -g"
 demo_build; (cd "$W" && timeout 900 ./_demo > "$W/_demo_with.txt" 2>&1); with_rc=$?
